@@ -42,10 +42,10 @@ pub fn c12_witness<L: KeyboardLayout, W: AsciiWitness>(name: &str, l: &L) {
     if W::MISSING == 0 || ki != 255 {
         kani::assume(ki != 255);
         let out = l.map_keycode(ALL_KEYS[ki as usize], &level_mods(lvl), h);
-        println!("C12 {} char={:?} witness key={:?} level={} mode={:?} out={:?}", name, c as char, ALL_KEYS[ki as usize], lvl, h, out);
+        crate::show!("C12 {} char={:?} witness key={:?} level={} mode={:?} out={:?}", name, c as char, ALL_KEYS[ki as usize], lvl, h, out);
         assert!(out == DecodedKey::Unicode(c as char), "C12: witness key/level does not type the character");
     } else {
-        println!("C12 {} char={:?} ({:#04x}) mode={:?}: no key at base/shift/altgr level types it", name, c as char, c, h);
+        crate::show!("C12 {} char={:?} ({:#04x}) mode={:?}: no key at base/shift/altgr level types it", name, c as char, c, h);
         assert!(exists_direct(l, h, c), "C12: printable ASCII character cannot be typed on this layout");
     }
     kani::cover!(lvl == 2);
@@ -56,7 +56,7 @@ pub fn c12_direct<L: KeyboardLayout>(name: &str, l: &L) {
     let c: u8 = kani::any();
     kani::assume(c >= 0x20 && c <= 0x7E);
     let h = any_mode();
-    println!("C12 direct {} char={:?} ({:#04x}) mode={:?}", name, c as char, c, h);
+    crate::show!("C12 direct {} char={:?} ({:#04x}) mode={:?}", name, c as char, c, h);
     assert!(exists_direct(l, h, c), "C12: printable ASCII character cannot be typed on this layout");
     kani::cover!(true);
 }
